@@ -1409,6 +1409,7 @@ func runConfCase(c *Ctx, text string, sseed int64, k int) {
 	// 3. the same document under re-ordered mappings (and Go's map iteration order, which differs from call to call)
 	agree := true
 	detail := ""
+	msgVaries := false
 	for i := 0; i < k; i++ {
 		t := text
 		if i > 0 {
@@ -1420,13 +1421,20 @@ func runConfCase(c *Ctx, text string, sseed int64, k int) {
 			}
 		}
 		r, _ := validateReal(t)
+		if r.err != res.err && r.cls == res.cls {
+			// same class, another message: the first offending entry of a map walk differs (an observation, not a failure)
+			msgVaries = true
+		}
 		if r.accept != res.accept || r.cls != res.cls || r.norm != res.norm || r.pnc != res.pnc {
 			agree = false
 			detail = fmt.Sprintf("order %d: accept=%v cls=%s err=%q", i, r.accept, r.cls, r.err)
 			break
 		}
 	}
-	impl["orders"] = map[string]interface{}{"n": k, "agree": agree, "detail": detail}
+	impl["orders"] = map[string]interface{}{"n": k, "agree": agree, "detail": detail, "msgVaries": msgVaries}
+	if msgVaries {
+		c.stat("orders:message-varies")
+	}
 	// 4. loading what was accepted
 	if res.accept && conf != nil {
 		var cc *scheduler.ClusterContext
